@@ -563,6 +563,9 @@ func runC08(c *core.Ctx) error {
 		"ints within int64, finite non-integral floats (C04/K2 keeps integral floats out of dag-json round trips), UTF-8 strings, no map key \"/\"",
 		"stringjoin / stringprefix field strings are free of the enclosing delimiters (hypothesis of the strategy)",
 	}
+	// typed maps keyed by a string-represented enum with renamed members: keys are spelled differently at the two levels
+	// (shared with C09, which decides acceptance; here: the two views and their lookups by key)
+	c09EnumKeys(c, c.Rand.Fork(), c.Pick(100, 10000), "C08")
 	// witnesses of the known findings, replayed on the implementation
 	if err := replayWitnesses(c, func(w string, report func(string, core.Replay)) error {
 		sc, v, err := parseSchemaCase(w, 1)
